@@ -337,7 +337,12 @@ class _FileModifyProxy:
                 raise FileNotFoundError(errno.ENOENT, os.strerror(errno.ENOENT), src)
             if os.path.lexists(dst):
                 raise FileExistsError(errno.EEXIST, os.strerror(errno.EEXIST), dst)
-            for dirpath, _, filenames in os.walk(src):
+            ignore = kwargs.get("ignore")
+            for dirpath, dirnames, filenames in os.walk(src):
+                if ignore is not None:
+                    ignored = ignore(dirpath, dirnames + filenames)
+                    dirnames[:] = [dn for dn in dirnames if dn not in ignored]
+                    filenames = [fn for fn in filenames if fn not in ignored]
                 for fn in filenames:
                     fn_src = os.path.join(dirpath, fn)
                     self.copy(fn_src, os.path.join(dst, os.path.relpath(fn_src, src)))
@@ -491,6 +496,31 @@ class DocSync:
                     logger.more("Skipped keys: {}".format(", ".join(self.skipped_keys)))
 
 
+def _ignore_excluded(exclude, keep=(), root=None):
+    """Return an ``ignore`` function for copytree that skips excluded names.
+
+    Parameters
+    ----------
+    exclude : list of str
+        Patterns of names (of files and directories) that must not be copied.
+    keep : tuple of str
+        Names that are copied regardless when they are directly below ``root``.
+    root : str
+        The directory that ``keep`` refers to.
+
+    """
+
+    def ignore(path, names):
+        top = root is not None and os.path.normpath(path) == os.path.normpath(root)
+        return {
+            name
+            for name in names
+            if not (top and name in keep) and any(re.match(p, name) for p in exclude)
+        }
+
+    return ignore
+
+
 def _sync_job_workspaces(
     src, dst, strategy, exclude, copy, copytree, recursive=True, deep=False, subdir=""
 ):
@@ -509,7 +539,10 @@ def _sync_job_workspaces(
         if os.path.isfile(fn_src):
             copy(fn_src, fn_dst)
         elif recursive:
-            copytree(fn_src, fn_dst)
+            if exclude:
+                copytree(fn_src, fn_dst, ignore=_ignore_excluded(exclude))
+            else:
+                copytree(fn_src, fn_dst)
         else:
             logger.warning(f"Skip directory '{fn_src}'.")
     for fn in diff.diff_files:
@@ -856,10 +889,29 @@ def sync_projects(
     logger.more(f"Synchronizing {N} jobs.")
     count = ddict(int)
 
+    # Files matching an exclude pattern are not copied into cloned jobs either.
+    # (sync_jobs appends its own patterns to a list, hence the copy.)
+    if exclude:
+        clone_exclude = list(exclude) if isinstance(exclude, list) else [exclude]
+    else:
+        clone_exclude = None
+
     def _clone_or_sync(src_job):
         """Clone a job if it does not exist, or sync if it exists."""
+        if clone_exclude is None:
+            copytree = proxy.copytree
+        else:
+
+            def copytree(src, dst):
+                ignore = _ignore_excluded(
+                    clone_exclude,
+                    keep=(src_job.FN_STATE_POINT, src_job.FN_DOCUMENT),
+                    root=src,
+                )
+                return proxy.copytree(src, dst, ignore=ignore)
+
         try:
-            destination.clone(src_job, copytree=proxy.copytree)
+            destination.clone(src_job, copytree=copytree)
             logger.more(f"Cloned job '{src_job}'.")
             return 1
         except DestinationExistsError:
